@@ -253,7 +253,7 @@ def m_char_to_string(ex, st, callee, args):
 
 
 def m_load_local(ex, st, callee, args):
-    """Ctx::load_local(name) -> Option<PrimitiveFlagsPair> for a name whose characters are concrete: the variable cell set up by
+    """Ctx::load_local(name) -> Result<PrimitiveFlagsPair> for a name whose characters are concrete: the variable cell set up by
     the kernel driver under ("var", name)"""
     s_ = to_sstr(ex, st, args[1])
     if s_ is None:
@@ -265,9 +265,10 @@ def m_load_local(ex, st, callee, args):
             raise Inconclusive("load_local with a symbolic name")
         name += chr(e.as_long())
     key = ("var", name)
+    from models import ok, err
     if key not in st.cells:
-        return [(None, NONE)]
-    return [(None, some(Adt("PrimitiveFlagsPair", None, [Ref(key)])))]
+        return [(None, err(Opaque("anyhow", "name not found")))]
+    return [(None, ok(Adt("PrimitiveFlagsPair", None, [Ref(key)])))]
 
 
 def m_str_eq(ex, st, callee, args):
